@@ -70,11 +70,17 @@ impl Serialize for Dv {
                 q.serialize_field("b", &1u8)?;
                 q.end()
             }
+            // Point's own two wire forms (text for human-readable formats, a pair for binary ones)
             Dv::Point(x, y) => {
-                let mut q = s.serialize_struct("Point", 2)?;
-                q.serialize_field("x", x)?;
-                q.serialize_field("y", y)?;
-                q.end()
+                if s.is_human_readable() {
+                    s.serialize_str(&format!("{x};{y}"))
+                } else {
+                    use serde::ser::SerializeTuple;
+                    let mut q = s.serialize_tuple(2)?;
+                    q.serialize_element(x)?;
+                    q.serialize_element(y)?;
+                    q.end()
+                }
             }
         }
     }
